@@ -67,12 +67,37 @@ def conc_cases(rnd, n, blocking):
     return out
 
 
+def parked_cases(rnd, n):
+    """blocking mode, a tiny buffer, an endpoint that is down while several callers pile up behind the full buffer, then
+    Shutdown(): everything whose Dispatch returned has to be acknowledged (the drain has to take the parked callers' lines too)"""
+    out = []
+    for i in range(n):
+        bufsize = rnd.choice([1, 2, 3])
+        maxnum = rnd.choice([1, 2, 3])
+        ops = ["cfg 1 %d %d 5 1 120" % (bufsize, maxnum)]
+        ops.append("script " + ",".join(rnd.choice(["hang", "500", "reset"]) for _ in range(rnd.randint(2, 4))))
+        series = ["p.%s.%d" % (gen.name(rnd, 2), k) for k in range(rnd.randint(1, 3))]
+        t = 1500000000
+        for _ in range(rnd.randint(bufsize + maxnum + 2, bufsize + maxnum + 9)):
+            t += 10
+            ops.append("mbg " + tg.hx(mline(rnd, rnd.choice(series), t)))
+        ops += ["sleep 300", "shutdown", "end"]
+        out.append(("k%d" % i, ops))
+    return out
+
+
 def monitor(lines, out):
     blocking = lines[0].split()[5] == "1"
     sent = []
+    returned = {}
+    for o in out:
+        if o.startswith("bg "):
+            returned[o.split()[1]] = o.split()[2] == "1"
     for l in lines:
         f = l.split()
-        if f[0] == "m":
+        if f[0] == "mbg" and not returned.get(f[1], False):
+            continue      # still parked when the route was shut down: never accepted
+        if f[0] in ("m", "mbg"):
             b = bytes.fromhex(f[1]).strip()
             toks = b.split()
             if b" " in b and len(toks) == 3 and toks[2].isdigit() and b";badtag" not in toks[0]:
@@ -121,5 +146,7 @@ def run(ctx):
                classify=lambda l, o: "posts=%d" % sum(1 for x in o if x.startswith("post")))
     ctx.stream("route-blocking", "gnet", conc_cases(ctx.rng("gb"), ctx.scale(20, 300), True), model=False, monitor=monitor, shrink=False, timeout=ctx.scale(300, 3000),
                nontrivial=lambda l, o: tuple(o))
+    ctx.stream("route-parked-shutdown", "gnet", parked_cases(ctx.rng("gk"), ctx.scale(12, 150)), model=False, monitor=monitor, shrink=False, timeout=ctx.scale(300, 3000),
+               nontrivial=lambda l, o: tuple(o), classify=lambda l, o: "parked-left" if any(x.startswith("bg ") and x.endswith(" 0") for x in o) else "all-returned")
     ctx.stream("route-nonblocking", "gnet", conc_cases(ctx.rng("gn"), ctx.scale(20, 300), False), model=False, monitor=monitor, shrink=False, timeout=ctx.scale(300, 3000),
                nontrivial=lambda l, o: tuple(o), classify=lambda l, o: "drops" if any(x.startswith("drops") and x != "drops 0" for x in o) else "nodrops")
